@@ -74,6 +74,14 @@ class Ctx:
     def time_left(self):
         return self.deadline - time.monotonic()
 
+    def phase_over(self, fraction):
+        """True once `fraction` of the shard's time budget is used: bulk loops stop there so that the workload classes placed
+        after them always get their share (an unrun class makes the check inconclusive)."""
+        if time.monotonic() > self.t0 + fraction * (self.deadline - self.t0):
+            self.truncated_by_time = True
+            return True
+        return False
+
     def out_of_time(self):
         if time.monotonic() > self.deadline:
             self.truncated_by_time = True
